@@ -22,7 +22,10 @@ KNOBS = ('cwd', 'umask', 'shell', 'ifile', 'noorg', 'noatt', 'mailrun', 'att2', 
 # clauses a knob can bear on; routing clauses do not carry the knob in their signature
 KNOB_CLAUSES = ('cwd', 'umask', 'stdin', 'shell', 'mail-unwanted', 'mail-count', 'mail-hdr', 'run-count', 'hang', 'echsx-died')
 # under the slowmail knob (2 s limit, job done at once, mailer busy for 4 s) every clause carries the knob
-ALL_CLAUSES_KNOBS = ('slowmail', 'mailfail', 'nomailer', 'slowpipe')
+ALL_CLAUSES_KNOBS = ('slowmail', 'mailfail', 'nomailer', 'slowpipe', 'relfile')
+# the umask menu: both ends, the usual ones, and the two largest values a request can carry
+UMASKS = (0o000, 0o022, 0o077, 0o377, 0o776, 0o777)
+NOMAIL_ROWS = ('R4', 'R8', 'R12', 'R16', 'R20', 'N4')
 SIZES = {'silent': (0, 0), 'out3': (192, 0), 'err3': (0, 192), 'alt50': (1600, 1600), 'big': (204800, 204800)}
 IFILE_TEXT = b''.join(bytes([97 + (i * 5 + i // 64) % 26]) if i % 64 != 63 else b'\n' for i in range(70000))
 
@@ -52,6 +55,27 @@ def cases(which):
         for r in R:
             for j in ('alt50', 'cat'):
                 out.append((r, j, '0', k))
+    return out
+
+
+def is_um(knob):
+    return bool(knob) and len(knob) == 6 and knob.startswith('um') and knob[2:].isdigit()
+
+
+def extras(which):
+    """cases added after the pair case (so that the indices of everything before stay what they were):
+    * relfile: OFILE/EFILE given as RELATIVE names next to a LOCATION, every row of the table
+    * umNNNN: the umask menu on rows without mail (the job's files are then the only thing echsx makes), judged by the
+      umask the job finds and by the mode of the files echsx creates for it"""
+    R = rows()
+    out = []
+    for r in R:
+        for j in (('alt50',) if which == 'quick' else ('alt50', 'big')):
+            out.append((r, j, '0', 'relfile'))
+    for r in R:
+        if r['name'] in (('R12', 'R16', 'R20') if which == 'quick' else NOMAIL_ROWS):
+            for u in UMASKS:
+                out.append((r, 'alt50', '0', 'um%04o' % u))
     return out
 
 
@@ -88,6 +112,17 @@ def main():
             run_pair(D, d, uid, echsx, shim, rec, job)
             if not D.opt('keep'):
                 shutil.rmtree(d, ignore_errors=True)
+        for row, jobm, ex, knob in extras(D.opt('set', 'quick')):
+            if not D.next():
+                continue
+            d = os.path.join(base, '%d' % D.idx)
+            os.makedirs(os.path.join(d, 'run'))
+            os.makedirs(os.path.join(d, 'wd'))
+            run_case(D, d, row, jobm, ex, knob, uid, echsx, shim, rec, job)
+            if not D.opt('keep'):
+                shutil.rmtree(d, ignore_errors=True)
+            if D.stop():
+                break
     finally:
         if not D.opt('keep'):
             shutil.rmtree(base, ignore_errors=True)
@@ -168,12 +203,25 @@ def run_case(D, d, row, jobm, ex, knob, uid, echsx, shim, rec, job):
         k[knob] = 1
     elif knob == 'att2':
         k['att'] = [ATT, 'second-c13@example.org']
+    elif knob == 'relfile':
+        k['cwd'] = want_cwd = os.path.join(d, 'wd')
+    elif is_um(knob):
+        k['umask'] = want_umask = int(knob[2:], 8)
+        # what the job and the shim note down must stay readable whatever the umask: the files are there beforehand
+        for name in ('count', 'cwd', 'umask', 'exp.out', 'exp.err', 'stdin', 'shim.log'):
+            with open(os.path.join(d, name), 'wb'):
+                pass
+            os.chmod(os.path.join(d, name), 0o644)
+    # where the files of the row are: a relative name is a name in the requested working directory
+    fdir = os.path.join(d, 'wd') if knob == 'relfile' else d
     extra = ()
     if knob == 'slowmail':
         # the job is over long before its limit, the mailer is still at it when the limit runs out
         extra = ('DURATION:PT2S',)
     uidtxt = 'c13-%d' % D.idx
-    txt = vtodo(uidtxt, cmd, row, d, uid, k, extra)
+    txt = vtodo(uidtxt, cmd, row, fdir, uid, k, extra)
+    if knob == 'relfile':
+        txt = txt.replace('X-ECHS-OFILE:%s/' % fdir, 'X-ECHS-OFILE:').replace('X-ECHS-EFILE:%s/' % fdir, 'X-ECHS-EFILE:')
     D.desc('row %s (OFILE=%s EFILE=%s MAIL-OUT=%d MAIL-ERR=%d) job=%s exit=%s knob=%s; request: %s' % (
         row['name'], row['out'], row['err'], row['mo'], row['me'], jobm, ex, knob,
         txt.replace(d, '$D').replace('\n', '|')))
@@ -225,13 +273,32 @@ def run_case(D, d, row, jobm, ex, knob, uid, echsx, shim, rec, job):
             -rc, (rd(os.path.join(d, 'echsx.err')) or b'')[-300:]))
     # what the job says it wrote
     out, err = rd(os.path.join(d, 'exp.out')), rd(os.path.join(d, 'exp.err'))
-    of, ef = row_paths(row, d)
+    of, ef = row_paths(row, fdir)
+    if knob == 'relfile':
+        # nobody says against which directory echsx resolves a relative name when it is not the requested one: its own
+        # is accepted too (the routing clauses are about what is in the file and in the mail)
+        alt = row_paths(row, os.path.join(d, 'run'))
+        if of and not os.path.exists(of) and os.path.exists(alt[0]):
+            of, ef = alt[0], (alt[0] if ef == of else ef)
+        if ef and not os.path.exists(ef) and os.path.exists(alt[1]):
+            ef = alt[1]
+    modes = []
+    if is_um(knob):
+        # the files echsx made for the job: their mode is what open(2) with 0666 gives under the requested umask
+        for what, fn in (('OFILE', of), ('EFILE', ef if ef != of else None)):
+            if fn:
+                try:
+                    modes.append((what, os.stat(fn).st_mode & 0o7777))
+                    os.chmod(fn, 0o644)
+                except OSError:
+                    pass
     R = {'of': rd(of) if of else None, 'ef': rd(ef) if ef else None, 't0': t0, 't1': t1,
          'journal': rd(os.path.join(d, 'journal')), 'stray': []}
-    for name in ('F1', 'F2'):
-        fn = os.path.join(d, name)
-        if fn not in (of, ef) and os.path.exists(fn):
-            R['stray'].append(name)
+    for sub in (('', 'wd', 'run') if knob == 'relfile' else ('',)):
+        for name in ('F1', 'F2'):
+            fn = os.path.join(d, sub, name) if sub else os.path.join(d, name)
+            if fn not in (of, ef) and os.path.exists(fn):
+                R['stray'].append(os.path.join(sub, name))
     R['mails'] = []
     for i in range(1000):
         b = rd(os.path.join(d, 'mail.%d' % i))
@@ -271,6 +338,11 @@ def run_case(D, d, row, jobm, ex, knob, uid, echsx, shim, rec, job):
             D.viol('harness/job-output/%s' % jobm, 'job recorded %s/%s bytes, its mode says %d/%d' % (
                 None if out is None else len(out), None if err is None else len(err), wo, we))
     bad = 0
+    for what, m in modes:
+        if m != 0o666 & ~want_umask:
+            bad += 1
+            D.viol('ofile-mode/%s/%s' % (shape, knob), '%s was created with mode %04o under the requested umask %04o, want %04o' % (
+                what, m, want_umask, 0o666 & ~want_umask))
     for clause, detail in judge(R, exp):
         bad += 1
         sig = '%s/%s' % (clause, shape)
